@@ -36,6 +36,21 @@ CHECKS = {
         text='Every code point (thorough) in three positions plus random strings: "#"/"."/"[a=" + escape(s) must match exactly the element carrying s and no near miss; embedding contexts are judged by the reference matcher; an independent un-escaper maps escape(s) back to s.',
         note='Trusted: the 30-line independent un-escaper (self-tested), bs4 attribute storage.',
         ref='DESIGN.md 3/C10'),
+    'C03': dict(
+        technique='property-based differential testing of all six entry points (module-level and compiled) against the reference match relation, with argument-combination and limit generators',
+        text='For generated (tree, selector, call target, limit, namespaces/flags/custom combination) every entry point is compared with the single reference relation M (scope = call target): select/iselect/select_one/limit, filter(tag), filter(iterable with strings, permuted), closest, match(document), and module-level == compiled method. Full-grammar selectors without a reference model are judged by identities between entry points.',
+        note='Trusted: reference matcher (as C01), including :scope/& and custom aliases given as ASTs.',
+        ref='DESIGN.md 3/C03'),
+    'C05': dict(
+        technique='metamorphic property-based testing: set-algebra laws over soupsieve\'s own answers for generated selector pairs from the whole grammar',
+        text='Union, complement, intersection and alias laws for "A, B", :is, :where, :matches, :not and X:is(A) are checked on generated pairs (half witness-directed so that both sides are non-empty) over 7 document flavours x 5 namespace maps. Self-consistency only: an error common to both sides of a law is invisible.',
+        note='Trusted: nothing beyond set operations on element identities; universe for complements is sel("*") under the same namespace map.',
+        ref='DESIGN.md 3/C05'),
+    'C08': dict(
+        technique='robustness fuzzing with structured generators: hostile trees x per-pseudo-class probe selectors x all entry points, oracle = no exception (TypeError only for non-Tag targets)',
+        text='Hostile form soups (near-valid dates/weeks/numbers, arbitrary dir/lang/type), XML with unknown namespaces, detached fragments, multiple top-level nodes and odd-typed attribute values (None, numbers, bytes, tuples, nested lists) are queried with one probe per pseudo-class (plain and negated) plus random full-grammar selectors through all six entry points.',
+        note='Trusted: the generator keeps odd-typed values on attributes only attribute/class/id selectors read, as the statement scopes it.',
+        ref='DESIGN.md 3/C08'),
 }
 
 NOT_APPLICABLE = []
